@@ -18,7 +18,7 @@ RULE = ('cases are histories of create / call-with-arguments / drop / garbage-co
         '(ii) on real Transitions, Jumps, TrajectoryMetrics and Collective objects built from generated systems; non-trivial = a history in which a new object received the '
         'address (id) of a collected object that had cache entries, or in which more than 128 live objects forced eviction')
 ASSUMPTIONS = [
-    'only sequential interleavings are explored; real threads are not (the harness does not own the GIL schedule and the cache is a C lru_cache with its own lock)',
+    'interleavings are explored sequentially (the harness owns those schedules); real threads are only stressed best-effort at a 1 microsecond switch interval - the GIL schedule is not controlled, so absence of a thread-only defect is not claimed',
     'CPython reference counting: an object without referrers is freed at once, gc.collect() additionally clears cycles',
     'the uncached value is method.__wrapped__(obj, *args); equality is deep (arrays, data frames, counters, graphs, Collective attributes), exact for integers and to rtol 1e-12 for floats (a recomputation may differ in the last bit)',
 ]
@@ -443,6 +443,57 @@ class RealMachine(LogMachine):
 _skip_safe(RealMachine)
 
 
+def run_threads(case):
+    """best-effort concurrency stress (the schedule is the interpreter's, not ours): several threads create, query and drop
+    objects of the synthetic class at a very short switch interval; every value must still carry its own object's payload"""
+    import sys
+    import threading
+
+    Obj = synthetic_class()
+    errors = []
+    shared = [Obj(10_000 + k) for k in range(case['shared'])]
+    old = sys.getswitchinterval()
+    sys.setswitchinterval(1e-6)
+
+    def worker(tid, ops):
+        local = []
+        try:
+            for k, (op, a) in enumerate(ops):
+                if op == 'new' or not local:
+                    local.append(Obj(tid * 1_000_000 + k))
+                elif op == 'drop':
+                    local.pop()
+                elif op == 'shared':
+                    o = shared[a % len(shared)]
+                    if o.f(a, b=tid % 3) != (o.payload, 'f', a, tid % 3):
+                        errors.append(('shared', tid, k))
+                else:
+                    o = local[a % len(local)]
+                    if o.f(a) != (o.payload, 'f', a, 1) or o.g(a) != [o.payload, 'g', a] or o.me()['payload'] != o.payload:
+                        errors.append(('local', tid, k))
+        except Exception as e:  # noqa: BLE001
+            errors.append(('exception', tid, repr(e)))
+
+    threads = [threading.Thread(target=worker, args=(t, ops)) for t, ops in enumerate(case['threads'])]
+    try:
+        for t in threads:
+            t.start()
+        for t in threads:
+            t.join()
+    finally:
+        sys.setswitchinterval(old)
+    if errors:
+        raise Violation('value-belongs-to-this-object-under-threads', f'{errors[:3]} ({len(errors)} in total)')
+    return {'nontrivial': len(case['threads']) >= 2, 'labels': [f'threads={len(case["threads"])}']}
+
+
+@st.composite
+def thread_cases(draw, tier):
+    n = draw(st.integers(2, 8))
+    ops = st.lists(st.tuples(st.sampled_from(['new', 'call', 'call', 'call', 'shared', 'shared', 'drop']), st.integers(0, 6)).map(list), min_size=20, max_size=200)
+    return {'shared': draw(st.integers(1, 4)), 'threads': [draw(ops) for _ in range(n)]}
+
+
 def run_dec(case):
     return replay_log(DecoratorMachine, case['log'])
 
@@ -458,4 +509,7 @@ SUBS = [
     Sub(name='analysis-objects', kind='machine', run=run_real, machine=lambda tier: RealMachine,
         rule='RuleBasedStateMachine on real Trajectory / Transitions / Jumps / TrajectoryMetrics / Collective objects built from 2-3 generated systems: every cached method with varying arguments vs method.__wrapped__, drop + gc (weakref must be dead), drop-then-create, bursts of 135 metrics objects',
         n={'quick': 10, 'thorough': 120}, shards={'quick': 12, 'thorough': 16}, steps={'quick': 25, 'thorough': 40}),
+    Sub(name='threads-stress', kind='hyp', run=run_threads, strategy=thread_cases,
+        rule='best effort, not schedule-controlled: 2-8 threads at a 1 microsecond switch interval create / query (shared and private objects) / drop objects of the synthetic cached class; every value must carry its own object payload',
+        n={'quick': 5, 'thorough': 150}, shards={'quick': 4, 'thorough': 16}),
 ]
